@@ -180,6 +180,55 @@ Section Concrete.
     : list A3 :=
     collect case (grad_all nx ny nz vol sf (zero3, zero3, zero3)) cx cy cz.
 
+  (* ---- computational grid /= model grid ---------------------------------- *)
+  (* maps._interp_volume_average_adj(oval, ogrid, nval, ngrid):
+        oval[c] += P.T * nval[c]   (c = 0,1,2),  P = volume_average(ogrid, ngrid)
+     The sparse matrix P is third party (discretize): it enters as the list of
+     its non-zero entries ((model cell), (computational cell), weight).  The
+     result is ADDED to what oval already holds. *)
+  Definition cell3 : Type := (Z * Z * Z)%type.
+  Definition vt_add (T : list (cell3 * cell3 * K)) (nval oval : A3) : A3 :=
+    fold_left (fun (a : A3) (t : cell3 * cell3 * K) =>
+                 let m := fst (fst t) in
+                 let c := snd (fst t) in
+                 upd3 a (fst (fst m)) (snd (fst m)) (snd m)
+                      (a (fst (fst m)) (snd (fst m)) (snd m)
+                       + snd t * nval (fst (fst c)) (snd (fst c)) (snd c)))
+              T oval.
+  Definition vt_add3 (T : list (cell3 * cell3 * K)) (nval oval : A3 * A3 * A3)
+    : A3 * A3 * A3 :=
+    (vt_add T (fst (fst nval)) (fst (fst oval)),
+     vt_add T (snd (fst nval)) (snd (fst oval)),
+     vt_add T (snd nval) (snd oval)).
+
+  (* one source-frequency pair on its own computational grid *)
+  Record pair_cg : Type := {
+    pc_nx : Z; pc_ny : Z; pc_nz : Z;          (* shape of the computational grid *)
+    pc_vol : A3; pc_smu0 : K;
+    pc_e : A3 * A3 * A3; pc_b : A3 * A3 * A3;
+    pc_T : list (cell3 * cell3 * K)           (* entries of volume_average(model grid, comp. grid) *)
+  }.
+
+  (* gradient = zeros(model grid); for every pair:
+       grad = zeros(comp. grid); interp_edges_to_vol_averages(...)
+       _interp_volume_average_adj(oval=gradient, nval=grad)      -- ACCUMULATES *)
+  Fixpoint grad_all_T (nxm nym nzm : Z) (sf : list pair_cg) (acc : A3 * A3 * A3)
+    : A3 * A3 * A3 :=
+    match sf with
+    | [] => acc
+    | q :: r =>
+        grad_all_T nxm nym nzm r
+          (tab33 nxm nym nzm
+             (vt_add3 (pc_T q)
+                (tab33 (pc_nx q) (pc_ny q) (pc_nz q)
+                   (grad_sf (pc_nx q) (pc_ny q) (pc_nz q) (pc_vol q) (pc_smu0 q) (pc_e q) (pc_b q)))
+                acc))
+    end.
+
+  Definition gradient_pipeline_T (case nxm nym nzm : Z) (sf : list pair_cg) (cx cy cz : A3)
+    : list A3 :=
+    collect case (grad_all_T nxm nym nzm sf (zero3, zero3, zero3)) cx cy cz.
+
   Definition ncomp (case : Z) : nat :=
     1 + (if has_y case then 1 else 0) + (if has_z case then 1 else 0).
 
